@@ -788,6 +788,25 @@ def replay(payload):
     case = {k: rp[k] for k in CASE_KEYS if k in rp}
     for k, v in case.items():
         print("%s: %s" % (k, v if k not in ("pattern", "code", "parent_pattern") else "\n" + str(v)))
+    if rp.get("between"):
+        # multi-step replay: question, unparsable text on the same report, same question
+        from pedal.cait import cait_api
+        prog = cc.Program(case["code"], case.get("setup", "code"))
+        first = cc.RealRun(case["pattern"], prog)
+        b = rp["between"]
+        call = b["call"].split(" ")[0]
+        try:
+            if call == "parse_program":
+                cait_api.parse_program(b["student_code"], report=prog.report)
+            else:
+                getattr(cait_api, call)(case["pattern"], student_code=b["student_code"], report=prog.report)
+        except Exception as e:
+            print("between: raised", type(e).__name__)
+        second = cc.RealRun(case["pattern"], prog)
+        print("first call : %d matches" % len(first.matches or []))
+        print("between    : %s(%r) on the same report" % (call, b["student_code"]))
+        print("second call: %d matches, cait['success'] = %r" % (len(second.matches or []), prog.report["cait"]["success"]))
+        return 0
     r = rerun(case)
     print("real  :", "raises " + r.exc if r.exc else json.dumps([cc.show_match(m) for m in r.matches], default=str))
     d = Driver("driver_c10")
